@@ -104,7 +104,9 @@ type rewriter struct {
 	keep    map[string]bool // imports that must stay referenced
 }
 
-func sel(pkg, name string) ast.Expr { return &ast.SelectorExpr{X: ast.NewIdent(pkg), Sel: ast.NewIdent(name)} }
+func sel(pkg, name string) ast.Expr {
+	return &ast.SelectorExpr{X: ast.NewIdent(pkg), Sel: ast.NewIdent(name)}
+}
 
 func (r *rewriter) rt(name string, args ...ast.Expr) *ast.CallExpr {
 	r.usesRT = true
